@@ -193,7 +193,7 @@ def run_harness(args, out_path, timeout=3000, release=False, env_extra=None):
 
 def run_driver(case_path, timeout=3000):
     """Returns the list of result dicts (one per case) printed by the model driver."""
-    rc, out, dt = sh("ulimit -s unlimited 2>/dev/null; %s %s" % (os.path.join(OCAML_BUILD, "model_driver"), case_path),
+    rc, out, dt = sh("ulimit -s unlimited 2>/dev/null; ulimit -v 12000000 2>/dev/null; %s %s" % (os.path.join(OCAML_BUILD, "model_driver"), case_path),
                      timeout=timeout, check=False)
     if rc != 0:
         raise CheckError("model driver failed (%s)\n%s" % (rc, out[-3000:]))
